@@ -273,11 +273,12 @@ impl Ctx {
         for (k, n) in g.outcomes.iter() {
             println!("    outcome {k}: {n}");
         }
-        if !g.machinery_errors.is_empty() {
-            return 2;
-        }
+        // a violation shown on the real code stands on its own (it is individually replayable);
+        // machinery errors only decide the exit status when no violation was found
         if unlisted > 0 {
             1
+        } else if !g.machinery_errors.is_empty() {
+            2
         } else {
             0
         }
